@@ -758,7 +758,7 @@ func init() {
 			{ID: "C18-F1", Run: ProbeEmptyTable},
 		},
 		StepUnit: "inputs delivered to a reader (clean or damaged)",
-		Rule: "one run = one artifact drawn by the tape (scalar of 9 mutable + 7 constant types; dense/sparse vector or matrix of 9 element types, possibly a nested Slice/T view, derivatives and Hessians attached for real types; values incl. -0, subnormals, extreme exponents, type bounds; or a distribution of ~30 families incl. nested mixtures, transforms, HMMs with tied emissions) written by the real writer. Round-trip scenarios: decode(encode(x)) must be observably equal. Fault scenarios: one fault family is drawn and EVERY position of it is enumerated on the artifact's bytes (all torn prefixes, bit flips, lost/duplicated bytes, zero-filled tails, duplicated blocks, splices with an older file, every number token replaced by 19 hostile tokens, lost/duplicated/swapped lines, gzip container valid/truncated at every byte/corrupt trailer/bare magic, missing file/directory/empty file; for configurations also a stream that fails at byte k and a writer whose medium fails at byte k); the reader must return an error or an object that is fully usable and survives its own round trip. Non-trivial = at least one input delivered. Distinct = distinct (artifact, codec, fault family).",
+		Rule: "one run = one artifact drawn by the tape (scalar of 9 mutable + 7 constant types; dense/sparse vector or matrix of 9 element types, possibly a nested Slice/T view, derivatives and Hessians attached for real types; values incl. -0, subnormals, extreme exponents, type bounds; or a distribution of ~30 families incl. nested mixtures, transforms, HMMs with tied emissions and start / final state restrictions, id / iid wrappers, multivariate and skew normals) written by the real writer. Round-trip scenarios: decode(encode(x)) must be observably equal (elements, derivatives, shape, non-zero positions; for distributions the re-exported configuration, the parameter vector and the log-density at four drawn probe points). Fault scenarios: one fault family is drawn and EVERY position of it is enumerated on the artifact's bytes (all torn prefixes, bit flips, lost/duplicated bytes, zero-filled tails, duplicated blocks, splices with an older file, every number token replaced by 19 hostile tokens, lost/duplicated/swapped lines, gzip container valid/truncated at every byte/corrupt trailer/bare magic, missing file/directory/empty file; for configurations also a stream that fails at byte k and a writer whose medium fails at byte k); the reader must return an error or an object that is fully usable and survives its own round trip. Non-trivial = at least one input delivered. Distinct = distinct (artifact, codec, fault family).",
 		Assumptions: []string{
 			"a torn or damaged dense table that is still a well-formed shorter/other table is accepted: the format has no checksum and the oracle does not invent one",
 			"sparse containers are not required to preserve the sign of zero",
